@@ -19,6 +19,7 @@ type Attempt struct {
 	Action    int64 // 1 preempt, 2 reclaim
 	Obs       []CandObs
 	Failed    bool // the Pipeline of this attempt failed and was rolled back
+	Topo      bool // made by topologyAwarePreempt
 	done      bool
 }
 
@@ -61,6 +62,7 @@ func (w *World) Reconstruct() []Choice {
 	choices := []Choice{}
 	var cur *TaskGroup
 	var att *Attempt
+	dry := []TraceEv{} // topology-aware: the dry-run vote calls of the current task (one per node, any order)
 	closeAtt := func() {
 		if att != nil && cur != nil && (len(att.Order) > 0 || att.Pipelined != 0 || att.Failed) {
 			cur.Atts = append(cur.Atts, att)
@@ -86,14 +88,24 @@ func (w *World) Reconstruct() []Choice {
 		case 10:
 			closeGroup()
 			cur = &TaskGroup{Task: e.Task, From: i, Act: e.Action}
+			dry = dry[:0]
 		case 11:
 			closeAtt()
 			if cur == nil || cur.Task != e.Task {
 				panic(fmt.Sprintf("vote call for t%d outside its task group", e.Task))
 			}
+			if act == 3 {
+				// a dry run on a clone: the real attempt, if any, follows after all of them
+				dry = append(dry, e)
+				att = nil
+				continue
+			}
 			att = &Attempt{Node: e.Node, Cands: e.Cands, CandSt: e.CandSt, QOrder: e.QOrder, Preemptor: e.Task, Action: act, Obs: e.obs}
 		case 0:
 			if e.Status == sched.SReleasing {
+				if act == 3 && att == nil {
+					att = topoAttempt(dry, e.Node, cur)
+				}
 				if att == nil || att.done {
 					panic(fmt.Sprintf("eviction of t%d outside a node attempt", e.Task))
 				}
@@ -104,6 +116,9 @@ func (w *World) Reconstruct() []Choice {
 			}
 		case 1:
 			if e.Status == sched.SPipelined {
+				if act == 3 && att == nil {
+					att = topoAttempt(dry, e.Node, cur)
+				}
 				if att == nil || att.done || e.Task != att.Preemptor {
 					panic(fmt.Sprintf("pipeline of t%d outside its node attempt", e.Task))
 				}
@@ -163,6 +178,19 @@ func (w *World) Reconstruct() []Choice {
 	return choices
 }
 
+// topoAttempt: the node attempt topologyAwarePreempt really makes, from the dry-run vote call on that node.
+func topoAttempt(dry []TraceEv, node int64, cur *TaskGroup) *Attempt {
+	if cur == nil {
+		return nil
+	}
+	for _, d := range dry {
+		if d.Node == node && d.Task == cur.Task {
+			return &Attempt{Node: node, Cands: d.Cands, CandSt: d.CandSt, QOrder: d.QOrder, Preemptor: d.Task, Action: 1, Obs: d.obs, Topo: true}
+		}
+	}
+	panic(fmt.Sprintf("topology-aware preempt acts on n%d without a dry run there", node))
+}
+
 func encAtts(atts []*Attempt) []int64 {
 	out := []int64{int64(len(atts))}
 	for _, a := range atts {
@@ -172,6 +200,7 @@ func encAtts(atts []*Attempt) []int64 {
 		out = append(out, a.Order...)
 		out = append(out, int64(len(a.QOrder)))
 		out = append(out, a.QOrder...)
+		out = append(out, b2i(a.Topo))
 	}
 	return out
 }
